@@ -37,7 +37,11 @@ def caseLine (c : Case) (ts : List String) : Case :=
   | ["link", a, b, l, x] => { c with links := c.links ++ [⟨natD a, natD b, natD l, natD x⟩] }
   | "fault" :: cs :: s :: r :: rest =>
     match parseKind rest with
-    | some k => { c with faults := c.faults ++ [⟨k, natD s, optNat r, cs == "x"⟩] }
+    | some k =>
+      -- o: scheduled; x: handle cancelled right after the Simulation was built; p: handle cancelled
+      -- before the Simulation was built; m: manual Network.partition() call
+      { c with faults := c.faults ++ [⟨k, natD s, optNat r, cs == "x" || cs == "p", cs == "m"⟩],
+               preCanc := if cs == "p" then c.faults.length :: c.preCanc else c.preCanc }
     | none => c
   | "job" :: e :: rest => { c with jobs := c.jobs ++ [⟨natD e, parseOps rest⟩] }
   | ["probe", a, b] => { c with probes := c.probes ++ [⟨natD a, natD b⟩] }
@@ -48,6 +52,7 @@ def parseCase (body : List String) : Case := body.foldl (fun c l => caseLine c (
 def parsePop : List String → Option Pop
   | ["F", t, f, ad] => some (.fault (natD t) (natD f) (ad == "a"))
   | ["C", t, f] => some (.cancel (natD t) (natD f))
+  | ["A", t] => some (.healall (natD t))
   | ["J", t, j, ac] => some (.job (natD t) (natD j) (ac == "c"))
   | ["S", t, j, k] => some (.sink (natD t) (natD j) (natD k))
   | ["N", t, p, "s"] => some (.nsend (natD t) (natD p))
@@ -58,6 +63,7 @@ def parsePop : List String → Option Pop
 def showPop : Pop → String
   | .fault t f a => s!"F {t} {f} {if a then "a" else "d"}"
   | .cancel t f => s!"C {t} {f}"
+  | .healall t => s!"A {t}"
   | .job t j c => s!"J {t} {j} {if c then "c" else "a"}"
   | .sink t j k => s!"S {t} {j} {k}"
   | .nsend t p => s!"N {t} {p} s"
@@ -86,7 +92,8 @@ def modelLines (c : Case) : St → List Pop → List String
     let line :=
       match p with
       | .fault .. => s!"{showPop p} | {if r.2.isEmpty then showSettings c r.1 else showToks r.2}"
-      | .cancel .. => showPop p
+      | .cancel .. => s!"{showPop p} | {showSettings c r.1}"
+      | .healall .. => s!"{showPop p} | {showSettings c r.1}"
       | .nsend .. => s!"{showPop p} | {showToks r.2} | {showSettings c r.1}"
       | _ => s!"{showPop p} | {showToks r.2}"
     line :: modelLines c r.1 rest
@@ -97,6 +104,7 @@ def runModel (body : List String) : List String :=
     match toks l with
     | "pop" :: rest => parsePop rest
     | _ => none
+  if !c.resolves then ["E unknown-target"] else
   modelLines c (St.init c) pops
 
 /-! ### judge input -/
@@ -128,6 +136,8 @@ def parseObs (line : String) : Option Obs :=
         match parseSettings s with
         | some st => some ⟨p, [], some st⟩
         | none => some ⟨p, normToks s, none⟩
+      | .cancel .., [s] => some ⟨p, [], parseSettings s⟩
+      | .healall .., [s] => some ⟨p, [], parseSettings s⟩
       | .nsend .., [f, s] => some ⟨p, normToks f, parseSettings s⟩
       | _, [t] => some ⟨p, normToks t, none⟩
       | _, _ => some ⟨p, [], none⟩
@@ -144,7 +154,10 @@ def runJudge (body : List String) : List String :=
   let isZ := fun (l : String) => (toks l).take 2 == ["obs", "Z"]
   let obs := (obsLines.filter (!isZ ·)).map parseObs
   let final := (obsLines.find? isZ).bind parseFinal
-  if obs.any (·.isNone) then ["viol transcript/malformed"]
+  if obsLines == ["obs E unknown-target"] then
+    if c.resolves then ["viol schedule/rejected-resolvable-plan"] else ["ok"]
+  else if !c.resolves then ["viol schedule/accepted-unknown-target"]
+  else if obs.any (·.isNone) then ["viol transcript/malformed"]
   else if (obsLines.find? isZ).isNone then ["viol transcript/no-final-line"]
   else
     match judge c (obs.filterMap id) final with
